@@ -140,14 +140,17 @@ def build_ops(K, rng, slot=0, vid_base=0, noise=0.0, permute=True):
     rest = add_ops + path_ops
     if permute:
         rng.shuffle(rest)
+    placed = []
     for o in rest:
         if noise and rng.random() < noise:
-            ops.append(noise_op(K, rng, slot, vid_base))
+            ops.append(noise_op(K, rng, slot, vid_base, placed))
         ops.append(o)
+        if o["op"] == "var_add":
+            placed.append(o["var"] - vid_base)
     return ops
 
 
-def noise_op(K, rng, slot, vid_base):
+def noise_op(K, rng, slot, vid_base, placed=()):
     """A redundant or refused call that must not change the content."""
     sl = {"slot": slot} if slot else {}
     r = rng.random()
@@ -155,8 +158,15 @@ def noise_op(K, rng, slot, vid_base):
         o = {"op": "ci_set", "sec": "compose", "field": "respin", "value": K["compose"]["respin"]}
     elif r < 0.7:
         o = {"op": "ci_set", "sec": "release", "field": "name", "value": K["release"]["name"]}
-    else:
+    elif r < 0.8 or len(K["vars"]) < 2 or not placed:
         o = {"op": "dumps"}
+    else:
+        # a variant that has been filed where it belongs is offered to a container that is not its own
+        v = K["vars"][pick(rng, list(placed))]
+        others = ["top"] + [vid_base + w["n"] for w in K["vars"] if w["n"] != v["n"]]
+        own = "top" if v["parent"] is None else vid_base + v["parent"]
+        others = [x for x in others if x != own]
+        o = {"op": "var_add", "var": vid_base + v["n"], "into": pick(rng, others)} if others else {"op": "dumps"}
     o.update(sl)
     return o
 
@@ -201,7 +211,7 @@ CI_POISON = [
     ("release", "name", [None, 5]),
     ("release", "version", [None, 7, "", "1.", "1..2", "1a", "7.x"]),
     ("release", "short", [None, 5]),
-    ("release", "type", [None, "GA", "beta", "", "Updates"]),
+    ("release", "type", [None, "GA", "beta", "", "Updates", "bogus", "security-respin", "lts"]),
     ("release", "is_layered", [None, "true", 1, 0]),
     ("release", "internal", [None, "false", 1]),
 ]
@@ -209,7 +219,7 @@ BP_POISON = [
     ("base_product", "name", [None, 5]),
     ("base_product", "version", [None, "", "1.", "7.x"]),
     ("base_product", "short", [None, 5]),
-    ("base_product", "type", [None, "GA", "beta", ""]),
+    ("base_product", "type", [None, "GA", "beta", "", "bogus", "lts"]),
 ]
 VAR_POISON = [
     ("id", [None, 5, "Ser-ver", "", "a b", "x_y"]),
